@@ -1,21 +1,24 @@
 import Driver.RespCmds
+import Driver.StoreCmds
 
 open Driver
 
-partial def loop (h : IO.FS.Stream) (out : IO.FS.Stream) : IO Unit := do
+partial def loop (h : IO.FS.Stream) (out : IO.FS.Stream) (ss : SS) : IO Unit := do
   let line ← h.getLine
   if line.isEmpty then return ()
   let toks := (line.trimAscii.toString.splitOn " ").filter (· ≠ "")
   match toks with
-  | [] => out.putStrLn ""
-  | "#" :: _ => out.putStrLn line.trimAscii.toString
+  | [] => out.putStrLn ""; loop h out ss
+  | "#" :: _ => out.putStrLn line.trimAscii.toString; loop h out ss
   | _ =>
     match respStep toks with
-    | some a => out.putStrLn a
-    | none => out.putStrLn "bad-op"
-  loop h out
+    | some a => out.putStrLn a; loop h out ss
+    | none =>
+      match storeStep ss toks with
+      | some (ss', a) => out.putStrLn a; loop h out ss'
+      | none => out.putStrLn "bad-op"; loop h out ss
 
 def main : IO Unit := do
   let stdin ← IO.getStdin
   let stdout ← IO.getStdout
-  loop stdin stdout
+  loop stdin stdout {}
